@@ -278,3 +278,22 @@ func typeCheckDir(dir string) string {
 	}
 	return strings.Join(errs, "\n")
 }
+
+// tvCountPrograms counts the functions the compiler emitted for the templates of id (measured on this
+// run's output, generated helpers like main excluded): the "programs" of a translation-validation run.
+func tvCountPrograms(id string) int {
+	files, _ := filepath.Glob(filepath.Join(tvDir(id), "xgo_*.go"))
+	n := 0
+	for _, f := range files {
+		b, err := os.ReadFile(f)
+		if err != nil {
+			continue
+		}
+		for _, line := range strings.Split(string(b), "\n") {
+			if strings.HasPrefix(line, "func ") && !strings.HasPrefix(line, "func main()") && !strings.HasPrefix(line, "func init()") {
+				n++
+			}
+		}
+	}
+	return n
+}
